@@ -17,6 +17,7 @@ package main
 import (
 	"fmt"
 	"go/ast"
+	"go/constant"
 	"go/parser"
 	"go/token"
 	"os"
@@ -46,7 +47,7 @@ type apiFacts struct {
 	groupBody string
 }
 
-func rtRecvName(fd *ast.FuncDecl) string {
+func recvName(fd *ast.FuncDecl) string {
 	if fd.Recv == nil || len(fd.Recv.List) != 1 {
 		return ""
 	}
@@ -61,20 +62,20 @@ func rtRecvName(fd *ast.FuncDecl) string {
 	return ""
 }
 
-func rtExprString(e ast.Expr) string {
+func exprString(e ast.Expr) string {
 	switch x := e.(type) {
 	case *ast.Ident:
 		return x.Name
 	case *ast.SelectorExpr:
-		return rtExprString(x.X) + "." + x.Sel.Name
+		return exprString(x.X) + "." + x.Sel.Name
 	case *ast.IndexExpr:
-		return rtExprString(x.X) + "[" + rtExprString(x.Index) + "]"
+		return exprString(x.X) + "[" + exprString(x.Index) + "]"
 	case *ast.BasicLit:
 		return x.Value
 	case *ast.StarExpr:
-		return "*" + rtExprString(x.X)
+		return "*" + exprString(x.X)
 	case *ast.CallExpr:
-		return rtExprString(x.Fun) + "(…)"
+		return exprString(x.Fun) + "(…)"
 	}
 	return "?"
 }
@@ -88,11 +89,11 @@ func classifyBroker(fd *ast.FuncDecl) string {
 	ctrl := clusterName + ".Brokers[" + clusterName + ".Controller]"
 	if len(fd.Body.List) == 1 {
 		if rs, ok := fd.Body.List[0].(*ast.ReturnStmt); ok && len(rs.Results) == 2 {
-			s := rtExprString(rs.Results[0])
-			if s == ctrl && rtExprString(rs.Results[1]) == "nil" {
+			s := exprString(rs.Results[0])
+			if s == ctrl && exprString(rs.Results[1]) == "nil" {
 				return "controller"
 			}
-			if strings.HasPrefix(s, clusterName+".Brokers[r.") && rtExprString(rs.Results[1]) == "nil" {
+			if strings.HasPrefix(s, clusterName+".Brokers[r.") && exprString(rs.Results[1]) == "nil" {
 				return "field"
 			}
 		}
@@ -108,14 +109,14 @@ func classifyBroker(fd *ast.FuncDecl) string {
 				usesAtoi = true
 			}
 		case *ast.RangeStmt:
-			if rtExprString(x.X) == "r.Topics" {
+			if exprString(x.X) == "r.Topics" {
 				rangesTopics = true
 			}
 		case *ast.IndexExpr:
-			if rtExprString(x) == "r.Topics[0]" {
+			if exprString(x) == "r.Topics[0]" {
 				indexZero = true
 			}
-			if rtExprString(x) == ctrl {
+			if exprString(x) == ctrl {
 				usesCtrl = true
 			}
 		}
@@ -212,7 +213,7 @@ func switchCases(repo, file, recv, fn string) ([]string, error) {
 	}
 	for _, d := range f.Decls {
 		fd, ok := d.(*ast.FuncDecl)
-		if !ok || fd.Body == nil || fd.Name.Name != fn || rtRecvName(fd) != recv {
+		if !ok || fd.Body == nil || fd.Name.Name != fn || recvName(fd) != recv {
 			continue
 		}
 		var out []string
@@ -229,7 +230,7 @@ func switchCases(repo, file, recv, fn string) ([]string, error) {
 						out = append(out, "default")
 					}
 					for _, e := range cc.List {
-						out = append(out, rtExprString(e))
+						out = append(out, exprString(e))
 					}
 				}
 				return false
@@ -294,7 +295,7 @@ func extractRouting(repo, root string) error {
 						if x.Recv == nil && x.Name.Name == "init" {
 							ast.Inspect(x.Body, func(n ast.Node) bool {
 								if c, ok := n.(*ast.CallExpr); ok {
-									switch rtExprString(c.Fun) {
+									switch exprString(c.Fun) {
 									case "protocol.Register":
 										registered = true
 									case "protocol.RegisterOverride":
@@ -306,14 +307,14 @@ func extractRouting(repo, root string) error {
 							})
 							continue
 						}
-						if rtRecvName(x) != "Request" {
+						if recvName(x) != "Request" {
 							continue
 						}
 						switch x.Name.Name {
 						case "ApiKey":
 							ast.Inspect(x.Body, func(n ast.Node) bool {
 								if rs, ok := n.(*ast.ReturnStmt); ok && len(rs.Results) == 1 {
-									s := rtExprString(rs.Results[0])
+									s := exprString(rs.Results[0])
 									a.keyName = strings.TrimPrefix(s, "protocol.")
 								}
 								return true
@@ -449,4 +450,21 @@ func extractRouting(repo, root string) error {
 	b.WriteString("end KV.Gen.Routing\n")
 	out := filepath.Join(root, "lean", "KafkaVerif", "Gen", "Routing.lean")
 	return os.WriteFile(out, []byte(b.String()), 0o644)
+}
+
+// litValue evaluates an integer literal expression (possibly parenthesised / typed conversion).
+func litValue(e ast.Expr) (uint64, bool) {
+	switch x := e.(type) {
+	case *ast.BasicLit:
+		v := constant.MakeFromLiteral(x.Value, x.Kind, 0)
+		u, ok := constant.Uint64Val(v)
+		return u, ok
+	case *ast.ParenExpr:
+		return litValue(x.X)
+	case *ast.CallExpr:
+		if len(x.Args) == 1 {
+			return litValue(x.Args[0])
+		}
+	}
+	return 0, false
 }
